@@ -16,6 +16,8 @@ AlphaSeq == WF({Sig(fk, IF fk = "free" THEN "-" ELSE SeqCls[((r + Len(ps) + nm) 
                \cup {Sig("method", SeqCls[(r % 5) + 1], 0, SeqRets[r], ps, 2) : r \in 1..12, ps \in SeqParams}
                \cup {Sig("ctor", c, 0, "void", ps, nd) : c \in {"K1", "Mix", "K3"}, ps \in SeqParams \ {<<>>}, nd \in 0..1}
                \cup {Sig("opCall", c, 0, SeqRets[r], ps, nd) : c \in {"K0", "K3"}, r \in {2, 5, 8, 9}, ps \in SeqParams, nd \in 0..1}
+               \cup {Sig(f, "K0", 0, "objRef", <<>>, 0) : f \in {"opInc", "opDec"}}
+               \cup {Sig(f, "K0", 0, "objVal", <<"i32">>, 0) : f \in {"opInc", "opDec"}}
                \cup {Sig("getter", "K0", 0, k, <<>>, 0) : k \in {"string", "i64", "f32"}}
                \cup {Sig("setter", "K0", 0, "void", <<k>>, 0) : k \in {"string", "i64", "f32"}})
 
